@@ -711,7 +711,7 @@ Section InterpReplay.
   Lemma att_ok_custom (body : M val) : INV body -> replays body -> att_ok (custom_att LF crun body).
   Proof.
     intros Hi Hb. split; [apply inv_custom_att; assumption|].
-    intros s Hne Hg Hd c. unfold custom_att in *. cbn [res w dirty rpd] in *.
+    intros s Hne Hg Hd c. unfold custom_att, with_fresh_T in *. cbn [res w dirty rpd] in *.
     assert (Ew : forall x, with_ts (with_src s x) fresh_t = with_src (with_ts s fresh_t) x) by (intros; destruct s; reflexivity).
     rewrite Ew.
     destruct (custom_inner_rep body (with_ts s fresh_t) Hb Hne Hg Hd c) as [R1 R2 R3 R4 R5 R6 R7 R8].
